@@ -145,11 +145,13 @@ func Struct(typ string, names []string, vals []*Term) *Term {
 
 func Bin(op string, a, b *Term) *Term {
 	switch op {
+	case "!=":
+		return Not(Bin("==", a, b)) // one canonical form for inequality
 	case ">":
 		return Bin("<", b, a)
 	case ">=":
 		return Bin("<=", b, a)
-	case "==", "!=", "+", "*", "&", "|", "^":
+	case "==", "+", "*", "&", "|", "^":
 		if a.Key() > b.Key() {
 			a, b = b, a
 		}
@@ -465,6 +467,17 @@ func (f Facts) Add(a *Atom) {
 	}
 	if a.Pred == "eq" && !a.Neg && a.Args[0].Key() == a.Args[1].Key() {
 		return
+	}
+	if a.Pred == "eq" && !a.Neg {
+		// x == struct{f: v, ...}  also gives  x.f == v  (each survives independently of the other fields' kills)
+		for i := 0; i < 2; i++ {
+			st, o := a.Args[i], a.Args[1-i]
+			if st.Op == "struct" && o.Op != "struct" && o.Op != "const" {
+				for j, fn := range st.FNames {
+					f.Add(atomOf(Bin("==", Field(o, fn), st.Args[j]), a.Site))
+				}
+			}
+		}
 	}
 	if _, ok := f[a.Key()]; !ok {
 		f[a.Key()] = a
